@@ -322,6 +322,9 @@ structure Fixes where
   quoteReset : Bool := false
   /-- fixes/C20-filtered-update-keeps-cst.diff: a `:cst` test carried over by a filtered update keeps its expectation -/
   keepCstFiltered : Bool := false
+  /-- fixes/C20-format-sexp-same-quote.diff: inside a quoted token a quote character of the same kind closes the token
+  only in front of a separator (` `, `)`, end) — `(MISSING """)`, `(UNEXPECTED ''')` -/
+  sameQuote : Bool := false
   deriving Repr, DecidableEq, Inhabited
 
 /-! ## `format_sexp` (lib/binding_rust/lib.rs) -/
@@ -333,12 +336,21 @@ structure FState where
   didLast : Bool := false
   deriving Repr
 
+/-- Which variant of the quote handling of `fetch_next_str` (see `Fixes.quoteReset`, `Fixes.sameQuote`). -/
+structure QMode where
+  reset : Bool
+  same : Bool
+  deriving Repr, DecidableEq, Inhabited
+
 /-- The `while let Some(c) = c_iter.next()` loop of `fetch_next_str`; `acc` is `next`, reversed. -/
-def fetchLoop (qr : Bool) : Str → Char → Bool → Str → (Str × Str × Char × Bool)
+def fetchLoop (qr : QMode) : Str → Char → Bool → Str → (Str × Str × Char × Bool)
   | [], q, sp, acc => (acc, [], q, sp)
   | c :: cs, q, sp, acc =>
     if c == '\'' || c == '"' then
-      let q' := if qr then (if q == '\x00' then c else if q == c then '\x00' else q) else c
+      let closes := !qr.same || (match cs with
+        | n :: _ => n == ' ' || n == ')'
+        | [] => true)
+      let q' := if qr.reset then (if q == '\x00' then c else if q == c && closes then '\x00' else q) else c
       fetchLoop qr cs q' sp (c :: acc)
     else if c == ' ' || (c == ')' && q != '\x00') then
       match cs with
@@ -347,7 +359,7 @@ def fetchLoop (qr : Bool) : Str → Char → Bool → Str → (Str × Str × Cha
     else if c == ')' then (acc, cs, q, true)
     else fetchLoop qr cs q sp (c :: acc)
 
-def fetch (qr : Bool) (st : FState) : Option (Str × FState) :=
+def fetch (qr : QMode) (st : FState) : Option (Str × FState) :=
   let (acc, rest, q, sp) := fetchLoop qr st.rest st.quote st.sawParen []
   let next := acc.reverse
   if rest.isEmpty && next.isEmpty then
@@ -362,7 +374,7 @@ def pfxUnexpected : Str := "(UNEXPECTED".toList
 def indentStr (n : Nat) : Str := (List.replicate n [' ', ' ']).flatten
 
 /-- Main loop of `format_sexp`; `out` is `formatted`, reversed. -/
-def fmtLoop (qr : Bool) : Nat → FState → Nat → Bool → Str → Str
+def fmtLoop (qr : QMode) : Nat → FState → Nat → Bool → Str → Str
   | 0, _, _, _, out => out
   | fuel + 1, st, indent, hasField, out =>
     match fetch qr st with
@@ -390,7 +402,7 @@ def fmtLoop (qr : Bool) : Nat → FState → Nat → Bool → Str → Str
 
 /-- `format_sexp(sexp, 0)` -/
 def formatSexp (fx : Fixes) (sexp : Str) : Str :=
-  (fmtLoop fx.quoteReset (sexp.length + 3) { rest := sexp } 0 false []).reverse
+  (fmtLoop ⟨fx.quoteReset, fx.sameQuote⟩ (sexp.length + 3) { rest := sexp } 0 false []).reverse
 
 /-! ## `write_tests_to_buffer` -/
 
